@@ -20,7 +20,7 @@ def fault_history(r, clsname):
         if kind < 0.75:
             ops.append(["update", {k: pick(k) for k in ks}])
         elif kind < 0.9:
-            ops.append(["set", ks[0], pick(ks[0])])
+            ops.append(["set" if r.random() < 0.4 else "setv", ks[0], pick(ks[0])])
         else:
             ops.append(["clone", {k: pick(k) for k in ks}])
         ops.append(["read", r.sample(qs, min(len(qs), r.randint(1, 5)))])
@@ -107,7 +107,7 @@ def final_all_readable(h):
                         realfuzz.read(obj, q)
                 elif op[0] == "update":
                     obj.update(**{k: copy.deepcopy(P[k][j]) for k, j in op[1].items()})
-                elif op[0] == "set":
+                elif op[0] in ("set", "setv"):
                     setattr(obj, op[1], copy.deepcopy(P[op[1]][op[2]]))
                 elif op[0] == "clone":
                     obj = obj.clone(**{k: copy.deepcopy(P[k][j]) for k, j in op[1].items()})
